@@ -220,7 +220,7 @@ class UfuncMonitor:
 UFUNCS = sorted([f for f in vars(np).values() if isinstance(f, np.ufunc) and f.nin <= 2 and f.nout <= 2 and f.signature is None],
                 key=lambda f: f.__name__)
 UFUNCS = [f for i, f in enumerate(UFUNCS) if f not in UFUNCS[:i]]
-ARR = ["sig_sig", "sig_arr", "arr_sig", "sig_scalar", "scalar_sig", "sig_q", "q_sig", "sub_super", "super_sub"]
+ARR = ["sig_sig", "sig_arr", "arr_sig", "sig_scalar", "scalar_sig", "sig_q", "q_sig", "sub_super", "super_sub", "sig_npscalar", "npscalar_sig"]
 
 
 def wl_ufunc(ctx, idx, rng):
@@ -250,6 +250,10 @@ def wl_ufunc(ctx, idx, rng):
         ops = (sig, gen.pick(rng, [2, 2.5, np.float32(3), np.int64(2)]))
     elif arr == "scalar_sig":
         ops = (gen.pick(rng, [2, 2.5, np.float64(3)]), sig)
+    elif arr in ("sig_npscalar", "npscalar_sig"):
+        sc = gen.pick(rng, [np.True_, np.False_, np.bool_(x.max() > 0), np.int8(3), np.uint16(2), np.float32(1.5), np.float16(2.0),
+                            np.complex64(2 + 0j), np.int64(-2), np.longdouble(1.25)])
+        ops = (sig, sc) if arr == "sig_npscalar" else (sc, sig)
     elif arr == "sig_q":
         ops = (sig, gen.pick(rng, [50 * u.percent, 2 * u.Jy, 3.0 * u.one, np.full(x.shape[1:], 2.0) * u.K]))
     elif arr == "q_sig":
@@ -314,6 +318,11 @@ def wl_ufunc(ctx, idx, rng):
     if exc is not None and raw_ok and ctx.counters["ufunc_events"] == before:
         # NumPy never reached Signal.__array_ufunc__ although the raw operation is valid (e.g. Quantity refused first)
         ctx.count("not_dispatched_to_signal")
+    elif (exc is not None and raw_ok and isinstance(exc, TypeError) and "NotImplemented" in str(exc)
+          and not any(isinstance(v, u.Quantity) for v in ops)):
+        # the signal itself declined an elementwise operation that is valid on its data
+        ctx.violation("ufunc", f"np.{uf.__name__} with operands {[type(v).__name__ for v in ops]} is valid on the underlying arrays but was "
+                               f"refused on signals: {exc}", None, {"what": "refused_valid", "ufunc": uf.__name__, "arrangement": arr})
     if exc is None and not raw_ok:
         ctx.violation("ufunc", f"np.{uf.__name__} is rejected on the underlying arrays but returned {type(res).__name__} on signals", None,
                       {"what": "accepts_invalid", "ufunc": uf.__name__})
